@@ -1,0 +1,30 @@
+//go:build verif
+
+package dig
+
+import (
+	"time"
+
+	"go.uber.org/dig/internal/digclock"
+	"go.uber.org/dig/internal/graph"
+)
+
+// verifAdjGraph is an explicit adjacency-list graph used to drive
+// internal/graph.IsAcyclic from outside the module.
+type verifAdjGraph [][]int
+
+func (g verifAdjGraph) Order() int            { return len(g) }
+func (g verifAdjGraph) EdgesFrom(u int) []int { return g[u] }
+
+// VerifIsAcyclic runs the container's cycle detector on the given
+// adjacency list and returns its verdict and the reported cycle path.
+func VerifIsAcyclic(edges [][]int) (bool, []int) {
+	return graph.IsAcyclic(verifAdjGraph(edges))
+}
+
+// VerifMockClock returns an Option installing a mock clock, together with
+// the function advancing it.
+func VerifMockClock() (Option, func(time.Duration)) {
+	m := digclock.NewMock()
+	return setClock(m), m.Add
+}
